@@ -3,6 +3,8 @@
    property (byte-identical values, whatever their size). *)
 From Coq Require Import List NArith Arith Bool.
 From SKV Require Import Base.Lex Txn.WriteSet Spec.Store.
+From SKV Require Import Params Codec.VlogParams Codec.Wal Codec.VlogPtr Codec.VlogPtrSpec Codec.VlogPtr_proofs
+                        Lsm.Vlog Lsm.VlogSpec Lsm.Vlog_proofs.
 Import ListNotations.
 
 Theorem C11_spec_returns_what_was_written :
@@ -19,3 +21,77 @@ Proof.
       rewrite H. reflexivity.
     + rewrite E. exact IH.
 Qed.
+
+
+(* ---------------------------------------------------------------------------------------------------------
+   The value log itself: codecs (Codec/VlogPtr.v) and the state machine of value-log files, tables, version
+   index, block cache and open readers (Lsm/Vlog.v).  Widths, tags, versions, sentinels and every comparison
+   operator are generated from the sources into Codec/VlogParams.v (tools/gen_params.py, section `vlog`). *)
+
+(* the generated parameters satisfy the side conditions the theorems assume *)
+Example C11_params_ok : vlog_params_ok = true.
+Proof. vm_compute. reflexivity. Qed.
+
+(* A. codecs *)
+Theorem C11_be_roundtrip : be_roundtrip_stmt.
+Proof. exact be_roundtrip. Qed.
+Theorem C11_pointer_roundtrip : vpointer_roundtrip_stmt.
+Proof. exact vpointer_roundtrip. Qed.
+Theorem C11_pointer_encode_size : vpointer_encode_size_stmt.
+Proof. exact vpointer_encode_size. Qed.
+Theorem C11_pointer_decode_length : vpointer_decode_length_stmt.
+Proof. exact vpointer_decode_length. Qed.
+Theorem C11_pointer_decode_total : vpointer_decode_total_stmt.
+Proof. exact vpointer_decode_total. Qed.
+Theorem C11_location_roundtrip : vloc_roundtrip_stmt.
+Proof. exact vloc_roundtrip. Qed.
+Theorem C11_location_decode_short : vloc_decode_short_stmt.
+Proof. exact vloc_decode_short. Qed.
+Theorem C11_location_pointer_roundtrip : vloc_pointer_roundtrip_stmt.
+Proof. exact vloc_pointer_roundtrip. Qed.
+Theorem C11_location_inline_roundtrip : vloc_inline_roundtrip_stmt.
+Proof. exact vloc_inline_roundtrip. Qed.
+Theorem C11_append_get : append_get_stmt.
+Proof. exact append_get. Qed.
+Theorem C11_append_pointer_in_range : append_pointer_in_range_stmt.
+Proof. exact append_pointer_in_range. Qed.
+Theorem C11_read_stable_under_append : read_stable_under_append_stmt.
+Proof. exact read_stable_under_append. Qed.
+Theorem C11_header_size : vheader_size_stmt.
+Proof. exact vheader_size. Qed.
+Theorem C11_separate_iff : separate_iff_stmt.
+Proof. exact separate_iff. Qed.
+Theorem C11_maybe_separate_inline : maybe_separate_inline_stmt.
+Proof. exact maybe_separate_inline. Qed.
+Theorem C11_maybe_separate_pointer_passes : maybe_separate_pointer_passes_stmt.
+Proof. exact maybe_separate_pointer_passes. Qed.
+
+(* B. the machine: every accepted operation sequence, any checksum function, any configuration *)
+Theorem C11_flush_records_values : forall crc cfg, flush_records_values_stmt crc cfg.
+Proof. exact flush_records_values. Qed.
+Theorem C11_live_values_intact : forall crc cfg, live_values_intact_stmt crc cfg.
+Proof. exact live_values_intact. Qed.
+Theorem C11_cleanup_keeps_live_files : cleanup_keeps_live_files_stmt.
+Proof. exact cleanup_keeps_live_files. Qed.
+Theorem C11_cleanup_index_consistent : cleanup_index_consistent_stmt.
+Proof. exact cleanup_index_consistent. Qed.
+Theorem C11_live_pointers_have_files : forall crc cfg, live_pointers_have_files_stmt crc cfg.
+Proof. exact live_pointers_have_files. Qed.
+Theorem C11_files_synced : forall crc cfg, files_synced_stmt crc cfg.
+Proof. exact files_synced. Qed.
+Theorem C11_ids_never_reused : forall crc cfg, ids_never_reused_stmt crc cfg.
+Proof. exact ids_never_reused. Qed.
+Theorem C11_old_reader_never_wrong : forall crc cfg, old_reader_never_wrong_stmt crc cfg.
+Proof. exact old_reader_never_wrong. Qed.
+(* NOT protected: a reader holding an older table set across a clean-up (closed witness: w_ops) *)
+Theorem C11_old_reader_unprotected : old_reader_unprotected_stmt.
+Proof. exact old_reader_unprotected. Qed.
+
+(* the hypotheses are satisfiable: the witness run is accepted, reaches a state with a live separated value, a
+   removed file and an open reader; the live value resolves *)
+Example C11_machine_instance :
+  vs_run w_crc w_cfg w_ops vs0 = Some w_st /\
+  map vf_id (vs_files w_st) = [2%N] /\
+  map (fun t => (tb_id t, tb_oldest t)) (vs_tables w_st) = [(12%N, 2%N)] /\
+  map (fun t => fst (vs_resolve w_crc w_cfg w_st (te_enc (hd w_e (tb_entries t))))) (vs_tables w_st) = [Some [6%N; 6%N; 6%N]].
+Proof. vm_compute. repeat split. Qed.
